@@ -17,7 +17,7 @@ import (
 // Enumerated: how the value was obtained x client path x every sequence (<= bound) of follow-up
 // events that could disturb the memory it may alias.
 
-var c18Handles = []string{"Get.Byte", "Get.String", "Get.Scan(*[]byte)", "Get.Scan(*string)", "GetPut.Byte", "Iterator.Key"}
+var c18Handles = []string{"Get.Byte", "Get.String", "Get.Scan(*[]byte)", "Get.Scan(*string)", "GetPut.Byte", "Iterator.Key", "EmbeddedIterator.Key"}
 var c18Events = []string{"overwrite-same-size", "overwrite-larger", "delete", "churn", "compact", "mutate-handle", "join+balance"}
 
 type c18Case struct {
@@ -68,7 +68,10 @@ func c18Cases(tier string) []c18Case {
 	for _, p := range []string{"EO", "EN", "CC"} {
 		for _, h := range c18Handles {
 			if h == "Iterator.Key" && p != "CC" {
-				continue // client iterators over simnet exist for the cluster client only
+				continue // the cluster client's iterator
+			}
+			if h == "EmbeddedIterator.Key" && p == "CC" {
+				continue // the embedded client's iterator (scans locally owned partitions in process)
 			}
 			for _, s := range seqs {
 				for _, t := range []int{128, 1 << 16} {
@@ -248,8 +251,23 @@ func c18Run(cs c18Case) (string, string) {
 		b, _ := r.Byte()
 		hb = &b
 		stored = "replaced-2"
-	case "Iterator.Key":
-		it, err := dm.Scan(ctx)
+	case "Iterator.Key", "EmbeddedIterator.Key":
+		var it olric.Iterator
+		var err error
+		if cs.Handle == "Iterator.Key" {
+			it, err = dm.Scan(ctx)
+		} else {
+			// EmbeddedDMap.Scan with the simulated network's cluster client (see VerifEmbeddedScan)
+			member := owner
+			if cs.Path == "EN" {
+				member = other
+			}
+			var cc *olric.ClusterClient
+			cc, err = cl.ClusterClient(member)
+			if err == nil {
+				it, err = olric.VerifEmbeddedScan(ctx, dm.(*olric.EmbeddedDMap), cc)
+			}
+		}
 		if err != nil {
 			return "setup", err.Error()
 		}
@@ -265,7 +283,7 @@ func c18Run(cs c18Case) (string, string) {
 		}
 	}
 	snapshot := orig
-	if cs.Handle == "Iterator.Key" {
+	if cs.Handle == "Iterator.Key" || cs.Handle == "EmbeddedIterator.Key" {
 		snapshot = key
 	}
 	current := func() string {
